@@ -16,7 +16,7 @@ func runSafety(r *ev.Run, which string) {
 	// directed scenarios of the recorded findings come first (deterministic KNOWN-FINDING lines on
 	// the unchanged tree; they vanish by themselves if the defect is ever repaired)
 	if Only < 0 {
-		for _, f := range []func(...vnet.Monitor) *Built{DirectedFork, DirectedEarlyCommit, DirectedEarlyPreCommit, DirectedAMEVEarlyCommit} {
+		for _, f := range []func(...vnet.Monitor) *Built{DirectedFork, DirectedEarlyCommit, DirectedEarlyPreCommit, DirectedAMEVEarlyCommit, DirectedParkedPreCommits} {
 			cert := mon.NewCert()
 			agree := &mon.Agree{Cert: cert}
 			b := f(cert, agree)
